@@ -40,6 +40,7 @@ def _c04(ctx):
     lazy.rule_lazy_chain(ctx)
     lazy.rule_lazy_caches(ctx)
     pair.rule_shadow(ctx)
+    pair.rule_newdelete(ctx)
 
 
 PROPS = {
